@@ -141,6 +141,7 @@ def aggregate(prop, mod, args, seed, results, open_f, findings, t0):
     per_ob = {}
     violations = []
     errors = []
+    mismatches = []
     samples = []
     total_paths = total_dec = total_valid = total_q = 0
     total_solver = 0.0
@@ -167,7 +168,9 @@ def aggregate(prop, mod, args, seed, results, open_f, findings, t0):
         st["solver_s"] += a.get("solver_s", 0.0)
         st["wall_s"] = max(st["wall_s"], a.get("wall_s", 0.0))
         st["exhausted_shards"] += 1 if a.get("exhausted") else 0
+        shard_verdict_idx = len(st["verdicts"])
         st["verdicts"].append(a["verdict"])
+        nviol_before = len(violations)
         if a["verdict"] == "INCONCLUSIVE":
             st["inconclusive_shards"].append({"shard": job["shard"], "params": job["params"], "counts": c,
                                               "why": a.get("why", "budget or unknown paths")})
@@ -191,9 +194,12 @@ def aggregate(prop, mod, args, seed, results, open_f, findings, t0):
                 if r["status"] == "REFUTED":
                     violations.append((wfile, r.get("msg") or p.get("msg"), "stageA+B"))
                 else:
-                    errors.append("%s shard %d path %d: Stage A refuted (%s) but Stage B says %s %s; witness %s" % (
+                    # a counterexample that does not reproduce on the real build is an encoding mismatch, never a
+                    # violation: the obligation is reported INCONCLUSIVE (the symbolic model disagrees with CPython here)
+                    mismatches.append("%s shard %d path %d: Stage A refuted (%s) but Stage B says %s %s; witness %s" % (
                         name, job["shard"], p["n"], p.get("msg"), r["status"], r.get("msg", ""),
                         json.dumps(p["witness"])))
+                    st["verdicts"].append("INCONCLUSIVE")
             elif p["status"] == "CONFIRMED":
                 if r["status"] == "REFUTED":
                     # the real build fails the oracle on a concrete input: a violation whatever Stage A thought
@@ -214,6 +220,8 @@ def aggregate(prop, mod, args, seed, results, open_f, findings, t0):
                 else:
                     st.setdefault("replay_other", []).append({"n": p["n"], "status": r["status"],
                                                               "msg": r.get("msg"), "witness": p["witness"]})
+        if a["verdict"] == "REFUTED" and len(violations) == nviol_before:
+            st["verdicts"][shard_verdict_idx] = "INCONCLUSIVE"  # refuted only symbolically: did not reproduce
     # ---- known findings: replay each listed witness with the region NOT excluded --------------------------
     known_lines = []
     for f in open_f:
@@ -286,8 +294,10 @@ def aggregate(prop, mod, args, seed, results, open_f, findings, t0):
             st["ignored"], st["replayed_ok"], st["queries"], st["solver_s"]))
     if drift:
         print("NOTE: %d confirmed paths whose Stage A / Stage B observations differ (encoding drift, see evidence)" % drift)
-    for e in errors:
-        print("ERROR:", e)
+    for e in errors[:10]:
+        print("ERROR:", e[:600])
+    for e in mismatches[:5]:
+        print("ENCODING-MISMATCH (reported as inconclusive, not as a violation):", e[:600])
     if not samples:
         samples = [{"note": "no confirmed+replayed path"}]
     ev = {
@@ -312,6 +322,7 @@ def aggregate(prop, mod, args, seed, results, open_f, findings, t0):
             "known_findings": known_lines,
             "encoding_drift_paths": drift,
             "errors": errors[:20],
+            "encoding_mismatches": mismatches[:20],
         },
         "assumptions": sorted(set(a for o in mod.OBLIGATIONS for a in o.assumptions)) + [
             "set iteration order / PYTHONHASHSEED not modelled (Stage A insertion order, Stage B interpreter order)",
